@@ -330,7 +330,7 @@ func C16Scenario() *Scenario {
 		w.Cfg["policy"] = pol.Name
 		w.Stages = []Stage{
 			{Name: "chaos", Policy: pol, Steps: 150 + 100*t.Pick(3, "len")},
-			{Name: "drain", Quiet: true, CheckOnBudget: true, MaxSteps: 4000 + 20000*min(1, len(discoveryGVs)), Do: func(w *World) { b.Left = 0; cfgChanges = 0; w.DiscoveryDown = nil }, Check: func(w *World) *Violation {
+			{Name: "drain", Quiet: true, CheckOnBudget: true, MaxSteps: 4000 + 4000*min(1, len(discoveryGVs)), Do: func(w *World) { b.Left = 0; cfgChanges = 0; w.DiscoveryDown = nil }, Check: func(w *World) *Violation {
 				if v := c16Oracle(w, ds); v != nil {
 					return v
 				}
